@@ -383,12 +383,15 @@ Fixpoint join_groups (prev_trail : list com) (mark : bool) (gs : list group) : l
 (* ---------------------------------------------------------------- norm *)
 Definition restyle_item (c : fmt_config) (it : item) : item := (map (restyle c) (fst it), snd it).
 
+(* comments after the last token: those on its line trail the last declaration, the formatter
+   prints no others - and none at all when the file has no token *)
+Definition keep_tail (out : list item) (tail1 : list com) : list com * list com :=
+  match out with [] => ([], tail1) | _ :: _ => split_lf0 tail1 end.
+
 Definition norm_items (c : fmt_config) (its : list item) (tail : list com) : list item * list com :=
   let (out, tl1) := run c st0 [] (map (restyle_item c) its) in
   let tail1 := tl1 ++ map (restyle c) tail in
-  (* comments after the last token: those on its line trail the last declaration, the formatter
-     prints no others *)
-  let (tr, _) := split_lf0 tail1 in
+  let (tr, _) := keep_tail out tail1 in
   let (gs, rest) := chunks 0 [] out in
   match rest with
   | _ :: _ => (out, tr)                           (* unfinished declaration: nothing is sorted *)
